@@ -11,7 +11,7 @@ def plan(tier):
             "index_exhaustive_small", "nonpow2_alphabet", "nonpow2_top_rank_qgram",
             "pattern_offset_exceeds_text_position", "max_count_small", "text_shorter_than_q",
             "pattern_shorter_than_q", "codes_full_word", "codes_sigma1", "codes_beyond_2p30", "unary_alphabet", "unary_alphabet_q_above_64",
-            "exact_k_jump_chains_in_long_list",
+            "exact_k_jump_chains_in_long_list", "same_diagonal_pairs_every_distance", "same_diagonal_pair_closer_than_k",
             "pairs_exhaustive_small", "hash_side_seq1", "hash_side_seq2", "k_longer_than_a_sequence",
             "empty_match_list", "chain_step_continuation", "chain_step_jump", "expand_grew",
             "chains_on_expanded", "arbitrary_match_list", "grid_exhaustive_small", "nontrivial"],
@@ -22,7 +22,9 @@ def plan(tier):
                 "alphabets of size 1,2,3,4,5,7,8,20, q in 1..4, texts<=200, max_count in {none,1,2,3..6}; code runs "
                 "up to q*bits = 64; single-symbol alphabets (bits = 0) with q in {1,2,63,64,65,70,200}, max_count at / just "
                 "below the number of windows. sparse: also lists of 17..40 matches made of chains A, A+(k,k), A+2(k,k).. "
-                "without the diagonal steps between them, mixed with random matches; one run = one pair (x,y,k): find_kmer_matches and both prehashed "
+                "without the diagonal steps between them, mixed with random matches; pairs/triples of matches on one diagonal "
+                "at every distance 1..2k for k in 1..6 (alone and among random matches) with three gap parameter sets: "
+                "chain validity of sdpkpp / union / lcskpp is judged on all of them; one run = one pair (x,y,k): find_kmer_matches and both prehashed "
                 "variants, lcskpp/sdpkpp/union on the true matches, expand on the matches and on a thinned sub-list, "
                 "chains on the expanded lists; all pairs over {a,b}<=3 (4), k<=3; random/related pairs<=60, k in "
                 "1..5; arbitrary sorted pair lists M<=40; nontrivial = lcskpp results with at least two matches",
